@@ -242,15 +242,16 @@ Theorem c10_stream_any_two_bodies :
 Proof. exact stream_two_scripts. Qed.
 Print Assumptions c10_stream_any_two_bodies.
 
+(* ALL inputs (over-long lines, recovery in progress, anything): a body that fails never yields a symbol table. *)
 Theorem c10_stream_failed_body_never_ok :
   forall (L : Type) (llen : L -> Z) (PS : Type) (init_ps : PS)
          (recog : PS -> L -> PS + Z) (bump : PS -> PS) (lineno : PS -> Z),
     (forall l, 1 <= llen l) ->
-    forall (lines : list L) (tail : Z), short_lines llen lines tail ->
-    forall script, delivered script = input_len L llen lines tail -> fails script = true ->
+    forall (lines : list L) (tail : Z) (script : list sev),
+    delivered script = input_len L llen lines tail -> fails script = true ->
     forall r x, drive_stream L llen PS init_ps recog bump lineno lines tail script = Ret (r, x) ->
     forall p, r <> ROk p.
-Proof. exact stream_failed_never_ok. Qed.
+Proof. exact stream_fail_not_ok. Qed.
 Print Assumptions c10_stream_failed_body_never_ok.
 
 (* The refill block of the model is the one assembled from the guard and the match arms that translate/c10_stream.py
